@@ -677,14 +677,14 @@ decode_len_dist_2:
 	mov	rcx, repeat_length
 	sub	rsi, look_back_dist
 
-	;; Check if a valid look back distance was decoded
-	cmp	rsi, [rsp + start_out_mem_offset]
-	jl	invalid_look_back_distance
-
 	;; Check for out buffer overflow
 	add	repeat_length, next_out
 	cmp	repeat_length, end_out
 	jg	out_buffer_overflow_repeat
+
+	;; Check if a valid look back distance was decoded
+	cmp	rsi, [rsp + start_out_mem_offset]
+	jl	invalid_look_back_distance
 
 	mov	next_out, repeat_length
 
@@ -716,10 +716,17 @@ end_of_input:
 out_buffer_overflow_repeat:
 	mov	rcx, end_out
 	sub	rcx, next_out
+	jz	out_buffer_full_repeat
+
+	;; Check if a valid look back distance was decoded
+	cmp	rsi, [rsp + start_out_mem_offset]
+	jl	invalid_look_back_distance
+
 	sub	repeat_length, rcx
 	sub	repeat_length, next_out
 	rep	movsb
 
+out_buffer_park_repeat:
 	mov	[state + _copy_overflow_len], repeat_length %+ d
 	mov	[state + _copy_overflow_dist], look_back_dist %+ d
 
@@ -727,6 +734,16 @@ out_buffer_overflow_repeat:
 
 	mov	rax, OUT_OVERFLOW
 	jmp	end
+
+out_buffer_full_repeat:
+	;; Nothing of the match fits. Literals of the same lookup that did not fit
+	;; either are not in the buffer yet but are history the distance may refer to
+	mov	tmp4 %+ d, dword [state + _write_overflow_len]
+	add	tmp4, rsi
+	cmp	tmp4, [rsp + start_out_mem_offset]
+	jl	invalid_look_back_distance
+	sub	repeat_length, next_out
+	jmp	out_buffer_park_repeat
 
 out_buffer_overflow_lit:
 	mov	dword [state + _write_overflow_lits], next_sym %+ d
